@@ -78,6 +78,29 @@ def loop_source(f, em):
     return lp, (best[1] if best else None)
 
 
+def mask_under_shift(f, n, under, seen):
+    """names of evasion masks referenced inside the argument of a shift, following single-definition locals"""
+    out = []
+    n = strip_casts(n)
+    if n is None or n['i'] in seen:
+        return out
+    r = n.get('ref')
+    if r and r['k'] == 'Parm' and r['n'] in ('push_mask', 'capture_mask'):
+        return ['%s (line %d)' % (r['n'], n.get('l', 0))] if under else []
+    if r and r['k'] == 'Local':
+        d = single_def(f, r['id'])
+        if d is not None:
+            return mask_under_shift(f, d, under, seen | {n['i']})
+        return out
+    if n['k'] == 'CallExpr' and short(n.get('callee', {}).get('n', '')) == 'shift':
+        for a in kids(n)[1:]:
+            out += mask_under_shift(f, a, True, seen)
+        return out
+    for c in kids(n):
+        out += mask_under_shift(f, c, under, seen)
+    return out
+
+
 def check(ctx):
     p = ctx.prog()
     dirs = p.enum('engine::Direction')
@@ -215,6 +238,16 @@ def check(ctx):
             ok = ok and (('&capture_mask' in s) != ('&push_mask' in s))
         ctx.ob('C01.M2.pawn-masks', 'generate_pawn_moves<%s>' % col, ok and n_l >= 16,
                'every pawn move loop is restricted by capture_mask (captures) or push_mask (pushes)', site=f.loc())
+        # the evasion masks restrict the destination square only: a mask inside the argument of a shift restricts an
+        # intermediate square (e.g. the square a double push passes over) and loses blocking moves
+        inner = []
+        for em, creator, args in emissions(f):
+            lp, src = loop_source(f, em)
+            if src is not None:
+                inner += mask_under_shift(f, src, False, set())
+        ctx.ob('C01.M2.mask-on-destination', 'generate_pawn_moves<%s>' % col, not inner,
+               'push_mask/capture_mask are applied to destination squares only, never to a set that is shifted afterwards'
+               + ('' if not inner else ' — ' + ', '.join(sorted(set(inner)))), site=f.loc())
         gl = gens[('generate_legal_moves', col)]
         # non-king piece generators receive target = capture_mask | push_mask
         tgt = [n for n in gl.all_nodes() if n['k'] == 'VarDecl' and n.get('name') == 'target']
@@ -509,4 +542,15 @@ def check(ctx):
     ctx.ob('C01.M6.perft', 'perft', okp and len(leaf) == 1,
            'perft counts exactly the generated list of the side to move at the leaves (make/unmake balance is C03.R3)', site=pf.loc())
     ctx.assume('C11: attack tables and shift<> are exact; legal input positions (quantifier of C01)')
+    # ---- M7 ray helper of the generator (pinned-piece moves, pin detection) ----------------------------------------------------
+    from rules.common import SubCtx
+    import props.C11 as c11
+    sub = SubCtx(ctx)
+    c11.check(sub)
+    bad = [r for r in sub.results if not r[2] and r[0] in ('C11.R3.nearest-blocker', 'C11.R3.sibling-agreement', 'C11.R3.ray-enum',
+                                                           'C11.R3.ray-directions', 'C11.R3.ray-store')]
+    ctx.ob('C01.M7.ray-helper', 'attack_in_ray', not bad,
+           'the generator\'s own ray walk (pins, moves of pinned sliders) stops at the nearest blocker in every direction and agrees with the '
+           'table builder (C11.R3)%s' % ('' if not bad else ' — refuted: ' + '; '.join('%s at %s: %s' % (r[0], r[4], r[3][:160]) for r in bad)),
+           site=bad[0][4] if bad else 'engine/movegen.cpp')
     ctx.note('not decided: that the generated set equals the FIDE-legal set for every position; absence of duplicates')
